@@ -76,3 +76,16 @@ Theorem C19_select_race_witness :
   tm_delivered (tm_run [TRegister 1 0; TFire 0; TCheck 0; TRegister 1 1; TDeliver 0]) = [(0%nat, 1, 0)].
 Proof. exact timer_select_race. Qed.
 Print Assumptions C19_select_race_witness.
+
+(* the trigger as its user sees it: a registration that really arms - the handler was cleared by Stop, or the pair is
+   another one - delivers its pair once time passes; in particular the pair that was armed before Stop can be armed again *)
+Theorem C19_armed_then_settled_delivers : forall s h v,
+  (tm_handler s && N.eqb (tm_v s) v && N.eqb (tm_h s) h = false) ->
+  exists i, tm_delivered (tm_settle (tm_register h v s)) = (i, h, v) :: tm_delivered (tm_stop s).
+Proof. exact armed_then_settled_delivers. Qed.
+Print Assumptions C19_armed_then_settled_delivers.
+
+Theorem C19_rearm_after_stop_delivers : forall s h v,
+  exists i, tm_delivered (tm_settle (tm_register h v (tm_stop s))) = (i, h, v) :: tm_delivered (tm_stop s).
+Proof. exact rearm_after_stop_delivers. Qed.
+Print Assumptions C19_rearm_after_stop_delivers.
